@@ -357,8 +357,8 @@ func init() { register("C12", checkC12) }
 
 func TestC12(t *testing.T) {
 	runProp(t, "C12", checkC12, nil,
-		part[c12Case]{"lines", scale(8000, 80000), genC12Line},
-		part[c12Case]{"inert-noise", scale(500, 5000), genC12Inert})
+		part[c12Case]{"lines", scale(20000, 80000), genC12Line},
+		part[c12Case]{"inert-noise", scale(1500, 5000), genC12Inert})
 }
 
 // FuzzC12: coverage-guided search for a crashing or mis-reported line.
